@@ -17,7 +17,7 @@ CLAIMED = {
             "6.C02"),
     "C03": ("exploration",
             SIM + "Byzantine prover attacks only the hash binding of Merkle-valid batches (alternative representatives with forged bit hints, perturbed fields under the original hash, re-packed messages, stale hashes) on the real R1CS; accept-control with hash+k*r",
-            "World R, hash-binding focus: every attempt starts from a Merkle-valid batch; the adversary sets the public input to the hash of its own forged packing (v+k*r representatives with NBits forged to exactly those bits, swapped/little-endian/wide packings, reordered fields, earlier batch's hash, neighbours) or keeps the original hash for a different but Merkle-consistent batch; all must be rejected while hash+k*r (same field element) must be accepted; on every accepting evaluation the public wire must equal the contract's own Keccak of the canonical packing. One- and multi-block message sizes for both modes (deletion batch 18-20 crosses the 136-byte rate).",
+            "World R, hash-binding focus: every attempt starts from a Merkle-valid batch; the adversary sets the public input to the hash of its own forged packing (v+k*r representatives with NBits forged to exactly those bits, swapped/little-endian/wide packings, reordered fields, earlier batch's hash, neighbours) or keeps the original hash for a different but Merkle-consistent batch; all must be rejected while hash+k*r (same field element) must be accepted; on every accepting evaluation the public wire must equal the contract's own Keccak of the canonical packing. One- and multi-block message sizes for both modes (deletion batch 18-20 crosses the 136-byte rate). A generic forger additionally attacks whatever hint functions the compiled system references (discovered from the constraint system at run time): one output of one or of all calls is shifted, the other outputs of the call are compensated linearly (coefficients 0, +-1/2, +-1, +-2), and the public input is freed (read off the first failing constraint and presented instead); anything accepted must still carry the contract's hash.",
             "Trusted as C01; the contract's packing is written from the property text.",
             "6.C03"),
     "C07": ("exploration",
@@ -26,8 +26,8 @@ CLAIMED = {
             "Trusted: Groth16 soundness itself; the contract model for validity; seeded sampling.",
             "6.C07"),
     "C08": ("exploration",
-            SIM + "seeded sequencer histories through the real tree and real input-hash helpers, steered (grinding) into roots with leading zero bytes; compared with the contract model's packing and evaluated on the real compiled circuit",
-            "World R, honest sequencer: histories of 3..8 batches per run are built with the real PoseidonTree and hashed by the real ComputeInputHashInsertion/Deletion; a grind operation searches commitments (~48 Poseidon evaluations) until pre- and/or post-roots have a leading zero byte, the state the defect needs; every batch's hash is compared with the contract model's Keccak over the canonical fixed-width packing and the parameters are solved on the real R1CS. Found the unpadded-root defect on the pinned tree (fixed, see KNOWN_FINDINGS). The gen-test-params consequence is exercised at process level under C19.",
+            SIM + "(a) seeded schedules of 2..5 concurrent callers of the helpers interleaved at statement granularity, each judged by its own packing; (b) seeded sequencer histories through the real tree and real input-hash helpers, steered (grinding) into roots with leading zero bytes; compared with the contract model's packing and evaluated on the real compiled circuit",
+            "World R, honest sequencer: histories of 3..8 batches per run are built with the real PoseidonTree and hashed by the real ComputeInputHashInsertion/Deletion; a grind operation searches commitments (~48 Poseidon evaluations) until pre- and/or post-roots have a leading zero byte, the state the defect needs; every batch's hash is compared with the contract model's Keccak over the canonical fixed-width packing and the parameters are solved on the real R1CS. Found the unpadded-root defect on the pinned tree (fixed, see KNOWN_FINDINGS). The gen-test-params consequence is exercised at process level under C19. World L mode (a sixth of the runs): 2..5 caller tasks each hash their own unrelated parameter sets with the helpers while the tape-driven scheduler interleaves them at every statement of the instrumented library (single P, pools emptied before the run); each result is compared with the contract packing of that caller's own parameters.",
             "Trusted: x/crypto Keccak, packing from the property text; reach probes (pre/post/both roots short) are reported in evidence.",
             "6.C08"),
     "C09": ("exploration",
@@ -36,33 +36,33 @@ CLAIMED = {
             "Trusted: net/http's HTTP parsing on both sides; our proof decoder and gnark's verifier; the grey class is deliberately not pinned.",
             "6.C09"),
     "C10": ("exploration",
-            SIM + "proof bytes decided by the seeded crypto/rand seam; real proofs plus a forged-proof adversary (generator multiples searched for short coordinates) round-tripped through the repository's JSON codec against an independent EVM-order decoder and the verifier",
-            "Every proof (real ones with tape-chosen prover randomness; forged ones assembled from small multiples of the generators with 1..31 leading zero bytes, incl. (1,2)) is encoded by the repository, decoded by our own decoder and compared coordinate by coordinate with gnark's proof struct in the order A.x A.y B.x1 B.x0 B.y1 B.y0 C.x C.y, decoded by the repository and compared with the original, and verified before and after. Found the left-aligned-copy defect on the pinned tree (fixed, see KNOWN_FINDINGS). Proofs crossing the simulated HTTP wire are additionally decoded under C09/C13.",
+            SIM + "(a) seeded schedules of 2..5 concurrent encoders/decoders interleaved at statement granularity, each judged by its own proof; (b) proof bytes decided by the seeded crypto/rand seam; real proofs plus a forged-proof adversary (generator multiples searched for short coordinates) round-tripped through the repository's JSON codec against an independent EVM-order decoder and the verifier",
+            "Every proof (real ones with tape-chosen prover randomness; forged ones assembled from small multiples of the generators with 1..31 leading zero bytes, incl. (1,2)) is encoded by the repository, decoded by our own decoder and compared coordinate by coordinate with gnark's proof struct in the order A.x A.y B.x1 B.x0 B.y1 B.y0 C.x C.y, decoded by the repository and compared with the original, and verified before and after. Found the left-aligned-copy defect on the pinned tree (fixed, see KNOWN_FINDINGS). Proofs crossing the simulated HTTP wire are additionally decoded under C09/C13. World L mode (a fifth of the runs): 2..5 caller tasks encode and decode their own forged proofs while the tape-driven scheduler interleaves them at every statement of the instrumented codec (single P, pools emptied before the run); each caller's JSON must carry its own eight coordinates and decode back to its own proof.",
             "Trusted: gnark-crypto point arithmetic; reflection over gnark's internal proof struct for ground truth; EVM order from the property text.",
             "6.C10"),
     "C11": ("exploration",
             SIM + "nodes A/B/C over a simulated disk (in-memory files, sparse short reads, real files): write in either format, convert, reload, byte-identical re-serialisation and cross prove/verify between original and reloaded systems; independent seeded setups per worker",
-            "World O, library level: node A (a real proving system; an independent seeded setup per worker, dimensions spread over the corners of the space: deletion batches larger than the tree (d2/b5, d1/b3), the largest depths (insertion d32, deletion d31), a batch that is not a power of two; depth != batch) writes compressed and raw files through the simulated disk; node B reloads through a plain reader, a reader with sparse legal short reads (incl. bufio's 4 MiB refill pattern) or ReadSystemFromFile on a real file; node C converts compressed to raw, which must be byte-identical to A's raw file. The reloaded system must report A's dimensions, re-serialise byte-identically in a tape-chosen format, prove a fresh valid batch that A verifies, verify a proof A made, reject a wrong hash and still reject a proof of the other mode's system. The CLI pass (setup -> prove / verify through real files) runs under C19.",
+            "World O, library level: node A (a real proving system; an independent seeded setup per worker, dimensions spread over the corners of the space: deletion batches larger than the tree (d2/b5, d1/b3), the largest depths (insertion d32, deletion d31), a batch that is not a power of two; depth != batch) writes compressed and raw files through the simulated disk; node B reloads through a plain reader, a reader with sparse legal short reads (incl. bufio's 4 MiB refill pattern) or ReadSystemFromFile on a real file; node C converts compressed to raw, which must be byte-identical to A's raw file. The reloaded system must report A's dimensions, re-serialise byte-identically in a tape-chosen format, prove a fresh valid batch that A verifies, verify a proof A made, reject a wrong hash and still reject a proof of the other mode's system. The CLI pass (setup -> prove / verify through real files) runs under C19. Every third run also drives `gnark-mbu convert-to-raw` with an enumerated output-path history (fresh path, in place, over an existing larger keys file, over a torn or unrelated file): exit 0 and a file that is, or at least reloads to, exactly A's raw file.",
             "Trusted: gnark's own key / constraint-system codecs below the repository's framing; seeded sampling of setups.",
             "6.C11"),
     "C12": ("exploration",
             SIM + "three construction paths as nodes (setup, import with exported keys, R1CS) in-process and as fresh `gnark-mbu r1cs` processes under tape-chosen GOMAXPROCS; SHA-256 of the serialised constraint system compared across all; SAMPLED, not controlled (stated limit)",
-            "World O, process level: per run one (mode, depth, batch): two in-process compilations, 2..3 fresh CLI processes with GOMAXPROCS in {1,2,4,16}, the setup path and the import path (with A's exported pk/vk) must all serialise to the same bytes; the imported system proves a fresh valid batch that A's verifying key accepts; the public witness has exactly one element that follows the input hash alone; a fifth of the runs build a pair of dimensions one after the other in one process, the second chosen so that a lossy summary of (depth, batch) - decimal concatenation, sum, product, swapped order - coincides with the first's, and compare each with a fresh process (a build that comes second in a process is a run like any other); deletion at depth >= 32 is refused by BuildR1CS, Setup, Import and by `gnark-mbu setup` / `r1cs` (non-zero exit, no output file) while depth 31 still compiles. Limit, stated plainly: map-iteration order and OS scheduling of separate processes are behind no seam, so this nondeterminism is sampled (>= 5 compilations over >= 3 processes per configuration) rather than owned by the scheduler; a difference replays by class.",
+            "World O, process level: per run one (mode, depth, batch): two in-process compilations, 2..3 fresh CLI processes with GOMAXPROCS in {1,2,4,16}, the setup path and the import path (with A's exported pk/vk) must all serialise to the same bytes; the imported system proves a fresh valid batch that A's verifying key accepts; the public witness has exactly one element that follows the input hash alone; a fifth of the runs build a pair of dimensions one after the other in one process, the second chosen so that a lossy summary of (depth, batch) - decimal concatenation, sum, product, swapped order - coincides with the first's, and compare each with a fresh process (a build that comes second in a process is a run like any other); deletion above depth 31 is refused by BuildR1CS, Setup, Import and by `gnark-mbu setup` / `r1cs` (non-zero exit, no output file) while depth 31 still compiles - probed at 32..34, at 24 farther depths up to 4096 (incl. 62..66, 127..129, 255..257) and, once per worker on the R1CS path, at every depth 32..80. Limit, stated plainly: map-iteration order and OS scheduling of separate processes are behind no seam, so this nondeterminism is sampled (>= 5 compilations over >= 3 processes per configuration) rather than owned by the scheduler; a difference replays by class.",
             "Trusted: SHA-256; gnark serialisation as the observation of the constraint system.",
             "6.C12"),
     "C13": ("exploration",
             SIM + "2..5 overlapping prove requests on one shared ProvingSystem; every hand-over between handler goroutines is a tape decision at statement granularity of the repository's code (uniform, sticky, PCT, starve-one); per-request oracle",
-            "World S: at least two valid requests with distinct input hashes plus unsatisfiable, mis-shaped, malformed and non-POST ones overlap on one real server; handler goroutines are parked at the inserted yield points (about 60 on the request path incl. JSON decoding, shape validation, witness assembly, error mapping) and released one at a time by the tape, so orders such as 'A decoded its body, B decodes, A proves' are produced on purpose, replayed and shrunk. Each response is judged against its own request only (status, error code, proof verifying for its own hash), and two different requests must not receive the same proof. Coverage is measured as context switches actually taken (site of X -> next site of Y). The data-race clause is not decidable under a serialising scheduler (hand-overs create happens-before edges): run 1 of the check is therefore an explicitly UNCONTROLLED companion mode (the real server built with -race on loopback ports, 2-3 rounds of 3-5 free-running requests plus an overlapping scraper); a race-detector report is a violation flagged 'uncontrolled' (not minimised; replay re-runs the mix up to five times) and the responses are judged by the same per-request oracle.",
+            "World S: at least two valid requests with distinct input hashes plus unsatisfiable, mis-shaped, malformed and non-POST ones overlap on one real server; handler goroutines are parked at the inserted yield points (about 60 on the request path incl. JSON decoding, shape validation, witness assembly, error mapping) and released one at a time by the tape, so orders such as 'A decoded its body, B decodes, A proves' are produced on purpose, replayed and shrunk. Each response is judged against its own request only (status, error code, proof verifying for its own hash), and two different requests must not receive the same proof. In a quarter of the runs 2..12 further clients are slow uploaders whose requests stop arriving inside the body (handler already reading) until the rest of the system has been quiet for 5 s of simulated time; the other requests are dialled after that point and must be answered while the uploads are stalled (a response may not wait for another client's progress), and after the thaw every slow request gets its own correct answer too. Coverage is measured as context switches actually taken (site of X -> next site of Y). The data-race clause is not decidable under a serialising scheduler (hand-overs create happens-before edges): run 1 of the check is therefore an explicitly UNCONTROLLED companion mode (the real server built with -race on loopback ports, 2-3 rounds of 3-5 free-running requests plus an overlapping scraper); a race-detector report is a violation flagged 'uncontrolled' (not minimised; replay re-runs the mix up to five times) and the responses are judged by the same per-request oracle.",
             "Trusted: yields only in repository code; gnark's internal worker goroutines run to completion inside one step.",
             "6.C13"),
     "C14": ("fault_enumeration",
             SIM + "the real server.Run / RunningJob / net/http Shutdown inside a synctest bubble over a simulated network; the stop request is a scheduler action enumerated over every step of the bare start/stop schedule x starved task, and seeded (uniform, sticky, PCT, starve-one) with requests in flight; restart cycles on the same addresses",
-            "World S: the instrumented copy of the current tree (a yield before every statement of server/, wrapped_http/, logging/, prover/ request-path code; ListenAndServe split into its library steps pre-check / bind / yield / Serve over simnet) runs in a synctest bubble. Runs 0..1199 enumerate the stop position (every scheduler step 0..119) times the starved task (0..8, plus first-enabled) of the bare start/stop; further runs place stop by tape, incl. relative to a request's arrival so that it lands while handlers are parked mid-proof, over up to 3 start/stop cycles. Oracle: when AwaitStop returns both addresses bind at once; stop/await never get stuck (nothing enabled and 14 s of fake time change nothing); every request whose header block had been taken up by the server when stop was requested receives its complete, correct response (own decoder + Groth16 verify); no goroutine is left blocked at the end of the bubble. Found the bind->serve window defect on the pinned tree (fixed, see KNOWN_FINDINGS). The SIGINT / exit-status clause runs as twelve extra runs of the same check at process level: `gnark-mbu start` (built from the current tree) on loopback ports, 1..2 valid requests (in half of the runs one of them over a raw connection whose body is completed only after the signals, so that it is inside the handler for the whole drain), SIGINT once the in-flight gauge shows a request inside the handler, in half of the runs repeated once or twice 1-300 ms later, then: complete 200 with a verifying proof, exit status 0, both ports bindable at once (real sockets, uncontrolled schedule, timing-independent assertions).",
+            "World S: the instrumented copy of the current tree (a yield before every statement of server/, wrapped_http/, logging/, prover/ request-path code; ListenAndServe split into its library steps pre-check / bind / yield / Serve over simnet) runs in a synctest bubble. Runs 0..1199 enumerate the stop position (every scheduler step 0..119) times the starved task (0..8, plus first-enabled) of the bare start/stop; further runs place stop by tape, incl. relative to a request's arrival so that it lands while handlers are parked mid-proof, over up to 3 start/stop cycles. A quarter of the clients give up (reset their connection) at a tape-chosen moment after their request was delivered, typically while the handler is parked mid-proof: nothing is owed to them, and every later stop must still complete. Oracle: when AwaitStop returns both addresses bind at once; stop/await never get stuck (nothing enabled and 14 s of fake time change nothing); every request whose header block had been taken up by the server when stop was requested receives its complete, correct response (own decoder + Groth16 verify); no goroutine is left blocked at the end of the bubble. Found the bind->serve window defect on the pinned tree (fixed, see KNOWN_FINDINGS). The SIGINT / exit-status clause runs as twelve extra runs of the same check at process level: `gnark-mbu start` (built from the current tree) on loopback ports, 1..2 valid requests (in half of the runs one of them over a raw connection whose body is completed only after the signals, so that it is inside the handler for the whole drain), SIGINT once the in-flight gauge shows a request inside the handler, in half of the runs repeated once or twice 1-300 ms later, then: complete 200 with a verifying proof, exit status 0, both ports bindable at once (real sockets, uncontrolled schedule, timing-independent assertions).",
             "Trusted: testing/synctest quiescence and fake clock (go1.26.8); simnet's model of bind/accept/close; yields only in repository code (library code between two yields is atomic).",
             "6.C14"),
     "C19": ("exploration",
             SIM + "command histories of fresh gnark-mbu processes (seeded crypto/rand via the tag-guarded hook) over shared files with faults between steps; reference verdict from an independent decoder, the contract hash and gnark's verifier under the file's verifying key",
-            "World O, process level: per worker `gnark-mbu setup` makes an insertion and a deletion keys file (dimensions chosen so that gen-test-params roots have a leading zero byte on half of the workers); per run 5..10 commands: gen-test-params (stdout exactly one JSON line whose batch is provable), prove (exit 0 iff provable under the keys, stdout exactly one proof JSON + newline and nothing on failure), verify (exit 0 iff the reference verdict says valid), with faults: tampered / reordered / truncated proof JSON, neighbouring, foreign, non-numeric hashes and hash+r, keys of the other mode, absent / misspelt / mismatching --mode, missing and truncated keys files, invalid parameters, and what a failed upstream stage leaves on stdin (nothing, blank space, a document cut anywhere). A known-but-mismatching mode is not pinned by the property beyond 'success implies a proof valid under the keys' and is asserted as such.",
+            "World O, process level: per worker `gnark-mbu setup` makes an insertion and a deletion keys file (dimensions chosen so that gen-test-params roots have a leading zero byte on half of the workers) - on a third of the workers over an output path that already holds an older, larger file, which the new keys file must replace entirely and reload from -; per run 5..10 commands: gen-test-params (stdout exactly one JSON line whose batch is provable), prove (exit 0 iff provable under the keys, stdout exactly one proof JSON + newline and nothing on failure), verify (exit 0 iff the reference verdict says valid), with faults: tampered / reordered / truncated proof JSON, neighbouring, foreign, non-numeric hashes and hash+r, keys of the other mode, absent / misspelt / mismatching --mode, missing and truncated keys files, invalid parameters, and what a failed upstream stage leaves on stdin (nothing, blank space, a document cut anywhere). A known-but-mismatching mode is not pinned by the property beyond 'success implies a proof valid under the keys' and is asserted as such.",
             "Trusted: the repository's file reader for loading the reference verifying key; kernel scheduling of processes is uncontrolled (assertions are on exit status and stdout only).",
             "6.C19"),
     "C20": ("exploration",
@@ -72,12 +72,12 @@ CLAIMED = {
             "6.C20"),
     "C15": ("fault_enumeration",
             SIM + "crash points of the write of a real proving-system file enumerated over a simulated disk (crash after k bytes / ENOSPC at k), both formats; prefix read back through three reader styles; error / no panic / no hang oracle",
-            "World O: the real WriteTo / WriteRawTo run through a simulated disk that crashes after k bytes (only the prefix survives) or reports ENOSPC at k (the write must report it). Run indices enumerate, for both formats, every offset of the 8-byte header, the first 256 bytes of and +-4 around each section (pk | vk | constraint system, boundaries found by a counting writer), a window of Write-call boundaries (array boundaries inside the keys) and the last 6 bytes (the cut points the property names - header, within a byte of a section boundary, the tail - come first); further runs draw uniform offsets. Each prefix is read by UnsafeReadFrom from memory, through a reader with legal short reads, or by ReadSystemFromFile from a real prefix file (structural cut points through all three): the result must be an error, never a panic, never a system, within a watchdog. A tenth of the runs hand the prefix file to the real CLI (start, prove, verify, export-vk, export-solidity, convert-to-raw): non-zero exit, no panic, no output. A crash in a library goroutine started by the repository's reader is attributed to the reader (creator chain of the goroutine dump).",
+            "World O: the real WriteTo / WriteRawTo run through a simulated disk that crashes after k bytes (only the prefix survives) or reports ENOSPC at k (the write must report it). Run indices enumerate, for both formats, every offset of the 8-byte header, the first 256 bytes of and +-4 around each section (pk | vk | constraint system, boundaries found by a counting writer), a window of Write-call boundaries (array boundaries inside the keys) and the last 6 bytes (the cut points the property names - header, within a byte of a section boundary, the tail - come first); further runs draw uniform offsets. Each prefix is read by UnsafeReadFrom from memory, through a reader with legal short reads, or by ReadSystemFromFile from a real prefix file (structural cut points through all three): the result must be an error, never a panic, never a system, within a watchdog. Every fifth run is an element of an enumerated CLI matrix - the six commands that read a keys file (start, prove, verify, export-vk, export-solidity, convert-to-raw) x both formats x eight cut classes (header, inside the proving key, just before its end, inside the verifying key, exactly at the constraint-system boundary, just after it, inside the constraint system, within the last six bytes) - and a tenth of the others hand their prefix to a drawn command: non-zero exit, no panic, no hang, never a server left running. A crash in a library goroutine started by the repository's reader is attributed to the reader (creator chain of the goroutine dump).",
             "Trusted: truncation-to-prefix as the crash model (what the property quantifies over); quick tier covers a shuffled initial segment of the enumeration, thorough all of it.",
             "6.C15"),
     "C18": ("exploration",
-            "deterministic simulation: seeded update histories of the real off-chain tree in lock-step with a reference leaf-array model; tape shrinking + fresh-process replay",
-            "Seeded histories (1..200 updates, depths 1..32, overwrites, zero writes, extreme and neighbouring indices, aliasing probes on earlier returned paths) drive the real PoseidonTree in lock-step with an independent sparse leaf-array model; root, returned path (old value/old root, new value/new root), sibling equality and read-back of untouched leaves are compared after every step. Exploration is the right level: the property quantifies over histories, and a model-based seeded search with shrinking covers far more histories than the suite's zero.",
+            SIM + "seeded update histories of the real off-chain tree in lock-step with a reference leaf-array model; a tenth of the runs as 2..4 concurrent callers on separate trees interleaved at statement granularity; tape shrinking + fresh-process replay (re-executing the worker's earlier runs when the finding depends on process-wide state)",
+            "Seeded histories (1..200 updates, depths 1..32, overwrites, zero writes, extreme and neighbouring indices, aliasing probes on earlier returned paths) drive the real PoseidonTree in lock-step with an independent sparse leaf-array model; root, returned path (old value/old root, new value/new root), sibling equality and read-back of untouched leaves are compared after every step. Values include relatives of what the history already holds (the same value elsewhere, byte-shifted, byte-reversed, neighbours, powers of two, short values of every byte length, the current root or an empty-subtree root used as a leaf, xor of two earlier values). World L mode (a tenth of the runs): 2..4 caller tasks replay their own histories on their own trees, interleaved by the tape at every statement of the instrumented tree code, each against its own precomputed model. Exploration is the right level: the property quantifies over histories, and a model-based seeded search with shrinking covers far more histories than the suite's zero.",
             "Trusted: iden3 Poseidon as reference hash; our own recursion/empty table; sampling, not proof.",
             "6.C18"),
 }
